@@ -36,5 +36,11 @@ func VerifyMerkelProof(txid, root, proof []byte, index uint32) bool {
 		index >>= 1
 	}
 
+	// the position must lie inside a tree of that depth, otherwise a leaf
+	// could be presented under an alias position (index + k*2^depth)
+	if index != 0 {
+		return false
+	}
+
 	return bytes.Equal(current, root)
 }
